@@ -8,8 +8,8 @@ pub open spec fn bsum(a: Seq<int>) -> int decreases a.len() { if a.len() == 0 { 
 
 /// a sum of per-byte distances in 0..=24 is 0 iff every term is 0, and is at most 24 per byte
 pub proof fn lemma_body_sum(t: Seq<int>)
-    requires forall|i: int| 0 <= i < t.len() ==> 0 <= t[i] <= 24
-    ensures 0 <= bsum(t) <= 24 * t.len(), (bsum(t) == 0) <==> (forall|i: int| 0 <= i < t.len() ==> t[i] == 0)
+    requires forall|i: int| 0 <= i < t.len() ==> 0 <= #[trigger] t[i] <= 24
+    ensures 0 <= bsum(t) <= 24 * t.len(), (bsum(t) == 0) <==> (forall|i: int| 0 <= i < t.len() ==> #[trigger] t[i] == 0)
     decreases t.len()
 {
     if t.len() > 0 {
@@ -25,7 +25,7 @@ pub proof fn lemma_body_sum(t: Seq<int>)
 }
 /// maximum attained: all terms 24 gives 24 * len
 pub proof fn lemma_body_max_attained(t: Seq<int>)
-    requires forall|i: int| 0 <= i < t.len() ==> t[i] == 24
+    requires forall|i: int| 0 <= i < t.len() ==> #[trigger] t[i] == 24
     ensures bsum(t) == 24 * t.len()
     decreases t.len()
 {
